@@ -168,6 +168,27 @@ def _fill_of(stmts, L, kind, temps=None):
             continue
         if len(body) != 1:
             raise _NoFold()
+        if isinstance(st, ast.If) and st.orelse:
+            # both arms fill the same element under their own conditions:
+            # one filter `(c and A) or (not c and B)`
+            if _mentions(st.test, L) or not _call_free(st.test):
+                raise _NoFold()
+            ta, ea = _fill_of(list(st.body), L, kind, temps)
+            tb, eb = _fill_of(list(st.orelse), L, kind, temps)
+            if any(t[0] != 'if' for t in ta + tb) or ast.dump(ea if not isinstance(
+                    ea, tuple) else ast.Tuple(elts=list(ea), ctx=ast.Load())) != ast.dump(
+                        eb if not isinstance(eb, tuple)
+                        else ast.Tuple(elts=list(eb), ctx=ast.Load())):
+                raise _NoFold()
+
+            def conj(first, rest):
+                vals = [first] + [t[1] for t in rest]
+                return vals[0] if len(vals) == 1 else ast.BoolOp(op=ast.And(), values=vals)
+            cond = ast.BoolOp(op=ast.Or(), values=[
+                conj(st.test, ta),
+                conj(ast.UnaryOp(op=ast.Not(), operand=clone(st.test)), tb)])
+            tail.append(('if', cond))
+            return tail, ea
         if isinstance(st, ast.If) and not st.orelse:
             if _mentions(st.test, L):
                 raise _NoFold()
